@@ -5,7 +5,7 @@
    condition does not contain the `throws` keyword (Scope/GrammarAllProofsCex.v) — hence the side
    condition `no_throws_kw` on conditions (citems of GrammarAllProofsItems.v). *)
 From Verif Require Import Base Regex Token TokEngine Headers Blocks Spec HeaderSpec LexShapes Grammar GrammarAll.
-From Verif Require Import GrammarProofsParen GrammarProofsBrace GrammarProofsHeaders GrammarAllProofsTok.
+From Verif Require Import GrammarProofsParen GrammarProofsBrace GrammarProofsHeaders GrammarAllProofsTok GrammarAllProofsCit.
 From Verif Require Import GrammarAllProofsSel GrammarAllProofsCand GrammarAllProofsCb GrammarAllProofsItems.
 From Coq Require Import Sorted Permutation.
 Open Scope nat_scope.
@@ -242,15 +242,21 @@ Proof.
   - intros pre B Hpre HB. apply (prefix_no_plain LJava); [exact Hpre | exact HB | apply cshift_plain | apply fshift_throws].
 Qed.
 
+Theorem new_split_java : new_split LJava cand_plain follow_throws cand_never follow_brace.
+Proof.
+  intros pre kn nm gs o B off _ Hpre Hkn Hnm Hgs Ho. split; [|apply Seg_never].
+  apply new_front_seg; try assumption; [apply fshift_throws | apply java_plain_head; assumption].
+Qed.
+
 Theorem canonical_java_citems ts ds : citems no_throws_kw any_tokens LJava 0 ts ds ->
   Permutation (lexical_headers_Java ts) (map header_of ds).
 Proof.
   intros H.
-  pose proof (canonical_two_shapes no_throws_kw any_tokens LJava cand_plain follow_throws cand_never follow_brace
-                oksel_java (good_oksel _ _ _ _ (good_never LJava) (fun _ _ => eq_refl)) head_split_java ts ds H) as HP.
+  destruct (canonical_two_shapes no_throws_kw any_tokens LJava cand_plain follow_throws cand_never follow_brace
+              oksel_java (good_oksel _ _ _ _ (good_never LJava) (fun _ _ => eq_refl)) head_split_java new_split_java ts ds H)
+    as (xs & HP & HX & _).
   unfold shape_headers at 2 in HP. rewrite select_never, app_nil_r in HP.
-  unfold lexical_headers_Java.
-  rewrite (canonical_no_drop _ _ LJava ts ds _ H HP). exact HP.
+  unfold lexical_headers_Java. exact (canonical_filtered _ _ LJava ts ds _ xs H HP HX).
 Qed.
 
 Theorem canonical_java ts ds : canonical_program_of LJava ts ds ->
